@@ -49,3 +49,43 @@ Proof.
   clearbody s. induction more as [|o more IH] in s, Hd |- *; cbn; [reflexivity|].
   assert (lstep s o = s) by (unfold lstep; rewrite Hd; reflexivity). rewrite H. apply IH. assumption.
 Qed.
+
+(* ---------- process-wide checker ---------- *)
+Lemma gl_run_app a b : gl_run (a ++ b) = fold_left gl_step b (gl_run a).
+Proof. unfold gl_run. apply fold_left_app. Qed.
+
+Lemma gl_ctors k : forall s, fold_left gl_step (repeat GCounterCtor k) s = {| g_refs := (g_refs s + k)%nat; g_alloc := g_alloc s; g_reports := g_reports s |}.
+Proof.
+  induction k as [|k IH]; intros s; cbn [repeat fold_left].
+  - destruct s; cbn. f_equal. lia.
+  - rewrite IH. cbn [gl_step g_refs g_alloc g_reports]. f_equal. lia.
+Qed.
+
+Lemma gl_traffic body : forallb is_traffic body = true -> forall s,
+  fold_left gl_step body s = {| g_refs := g_refs s; g_alloc := g_alloc s + gnet body; g_reports := g_reports s |}.
+Proof.
+  induction body as [|o tl IH]; intros Hb s; cbn [fold_left gnet].
+  - destruct s; cbn. f_equal. lia.
+  - cbn [forallb] in Hb. apply andb_prop in Hb. destruct Hb as [Ho Htl]. rewrite (IH Htl).
+    destruct o; try discriminate; cbn [gl_step g_refs g_alloc g_reports]; f_equal; lia.
+Qed.
+
+Lemma gl_dtors k : forall s, (g_refs s = k)%nat -> (0 < k)%nat ->
+  fold_left gl_step (repeat GCounterDtor k) s =
+  {| g_refs := 0; g_alloc := g_alloc s; g_reports := g_reports s ++ (if g_alloc s =? 0 then [] else [g_alloc s]) |}.
+Proof.
+  induction k as [|k IH]; intros s Hr Hk; [lia|]. cbn [repeat fold_left].
+  destruct k as [|k].
+  - cbn [repeat fold_left gl_step]. rewrite Hr. cbn [pred Nat.eqb andb]. destruct (g_alloc s =? 0); reflexivity.
+  - rewrite IH; [|cbn [gl_step g_refs]; rewrite Hr; reflexivity|lia]. cbn [gl_step g_refs g_alloc g_reports]. rewrite Hr. cbn [pred Nat.eqb andb].
+    rewrite app_nil_r. reflexivity.
+Qed.
+
+(* static initialisation creates the k counter objects, the program allocates and releases through any number of
+   allocator objects, static destruction destroys the counters: exactly one report, of the exact net, iff it is not zero *)
+Theorem global_report_exact k body : (0 < k)%nat -> forallb is_traffic body = true ->
+  g_reports (gl_run (repeat GCounterCtor k ++ body ++ repeat GCounterDtor k)) = if gnet body =? 0 then [] else [gnet body].
+Proof.
+  intros Hk Hb. rewrite gl_run_app, fold_left_app. unfold gl_run. rewrite gl_ctors. rewrite (gl_traffic body Hb).
+  rewrite gl_dtors; cbn [g_refs g_alloc g_reports]; [|lia|exact Hk]. rewrite Z.add_0_l. reflexivity.
+Qed.
